@@ -37,7 +37,7 @@ Definition std_wire (s : scalar) : N :=
   match s with
   | Int32 | Int64 | UInt32 | UInt64 | SInt32 | SInt64 | Bool_ => 0
   | Fixed64 | SFixed64 | Double => 1
-  | Bytes | Bytes16 | Bytes32 | Bytes64 | String_ => 2
+  | Bytes | Bytes16 | Bytes32 | Bytes64 | String_ | StringPath => 2
   | Fixed32 | SFixed32 | Float => 5
   end.
 
@@ -62,7 +62,7 @@ Definition ref_scalar (s : scalar) (v : sval) : list N :=
   | (Fixed64 | Double), SZ z => le_bytes 8 (Z.to_N z)
   | SFixed32, SZ z => le_bytes 4 (ref_twos 32 z)
   | SFixed64, SZ z => le_bytes 8 (ref_twos 64 z)
-  | (Bytes | Bytes16 | Bytes32 | Bytes64 | String_), SB bs => ref_len_delimited bs
+  | (Bytes | Bytes16 | Bytes32 | Bytes64 | String_ | StringPath), SB bs => ref_len_delimited bs
   | _, _ => []
   end.
 
@@ -144,7 +144,7 @@ Definition scalar_eqb (a b : scalar) : bool :=
   | Int32, Int32 | Int64, Int64 | UInt32, UInt32 | UInt64, UInt64 | SInt32, SInt32 | SInt64, SInt64
   | Fixed32, Fixed32 | Fixed64, Fixed64 | SFixed32, SFixed32 | SFixed64, SFixed64 | Float, Float
   | Double, Double | Bool_, Bool_ | Bytes, Bytes | Bytes16, Bytes16 | Bytes32, Bytes32
-  | Bytes64, Bytes64 | String_, String_ => true
+  | Bytes64, Bytes64 | String_, String_ | StringPath, StringPath => true
   | _, _ => false
   end.
 Definition fld_default (c : container) (t : ty) : val :=
